@@ -3,6 +3,7 @@ package props
 import (
 	"bytes"
 	"crypto"
+	"encoding/json"
 	"errors"
 	"fmt"
 	"hash/crc32"
@@ -591,6 +592,75 @@ func init() {
 			c18stats.Outcome("copies")
 		}, nil
 	}
+	// whether a read was made earlier does not change what the object does later: a claims-set is filled from one token,
+	// read (or not), and filled again from another token through its own codec method; what it then reports and encodes
+	// is what an object reports on which the read was never made. Lists of 1 .. 64 components (a reader that keeps a
+	// view of a longer list must not answer from it afterwards).
+	Scenarios["c18.read-then-decode-again"] = func() (choice.Scenario, func() any) {
+		sizes := []int{1, 2, 4, 31, 32, 33, 64}
+		tokens := map[string][]byte{}
+		token := func(p, n int, jsonDoc bool) []byte {
+			key := fmt.Sprint(p, n, jsonDoc)
+			if b, ok := tokens[key]; ok {
+				return b
+			}
+			a := *c02Claims()[map[int]int{1: 2, 2: 0}[p]]
+			a.Comps = nil
+			for i := 0; i < n; i++ {
+				a.Comps = append(a.Comps, fullComp(byte(n+i), 32))
+			}
+			b := mcbor.Encode(wireTree(&a, true))
+			if jsonDoc {
+				b = wireJSON(&a)
+			}
+			tokens[key] = b
+			return b
+		}
+		return func(c *choice.Ctx) {
+			p := 1 + c.Choose("profile", 2)
+			n1 := sizes[c.Choose("first-list", len(sizes))]
+			n2 := sizes[c.Choose("second-list", len(sizes))]
+			jsonDoc := c.Choose("codec", 2) == 1
+			oi := c.Choose("read", len(claimsReadOps))
+			if !c18Mine(p + n1*3 + n2*5 + oi) {
+				return
+			}
+			run := func(read bool) (string, error) {
+				cl, err := psatoken.NewClaims(canonOf(p))
+				if err != nil {
+					panic(choice.HarnessError{Msg: err.Error()})
+				}
+				fill := func(b []byte) error {
+					if jsonDoc {
+						return json.Unmarshal(b, cl)
+					}
+					return cl.(interface{ UnmarshalCBOR([]byte) error }).UnmarshalCBOR(b)
+				}
+				if err := fill(token(p, n1, jsonDoc)); err != nil {
+					return "", err
+				}
+				if read {
+					claimsReadOps[oi].run(cl)
+				}
+				if err := fill(token(p, n2, jsonDoc)); err != nil {
+					return "", err
+				}
+				return getterVector(cl) + encObs(cl), nil
+			}
+			want, err := run(false)
+			if err != nil {
+				c.Failf("C18:decode-again:refused", "P%d, %d then %d components: %v", p, n1, n2, err)
+				return
+			}
+			got, err := run(true)
+			c18stats.StateStr(fmt.Sprint("rtd", p, n1, n2, jsonDoc, oi))
+			c18stats.Trans.Add(1)
+			if err != nil || got != want {
+				c.Failf("C18:read-changes-later-behaviour:"+claimsReadOps[oi].name, "P%d: filled from a token with %d components, %s, filled again from a token with %d components (%v): the object reports\n %s\nwithout the read in between it reports\n %s", p, n1, claimsReadOps[oi].name, n2, err, clipS(got), clipS(want))
+			}
+			c18stats.Outcome("read-then-decode-again")
+		}, nil
+	}
 	// aliasing of the input buffer
 	Scenarios["c18.alias"] = func() (choice.Scenario, func() any) {
 		k1 := fixtures.Get("ES256", 1)
@@ -820,6 +890,7 @@ func init() {
 		exploreChoiceOpts(r, "c18.evidence", -1, dl, 1)
 		exploreChoiceOpts(r, "c18.alias", -1, dl, 1)
 		exploreChoiceOpts(r, "c18.copies", -1, dl, 1)
+		exploreChoiceOpts(r, "c18.read-then-decode-again", -1, dl, 1)
 		exploreChoiceOpts(r, "c18.buffer-reuse", -1, dl, 1)
 		exploreChoiceOpts(r, "c18.several-embedded-structs", -1, dl, 1)
 		b := 3 // construction/op1/op2 are choices too: bound 3 = every op pair on the baseline object + every single op on every 1-deviation object
